@@ -4,6 +4,7 @@ use std::io::{BufRead, Write};
 
 mod util;
 mod xread;
+mod xrun;
 
 /// `fuv record ARGS...`: append "cwd argv0 argv1 ..." (hex) to $FUV_RECORD, exit with $FUV_EXIT
 /// (or, when $FUV_EXIT_MAP is "i:code,..." with the 0-based index of this invocation in the
@@ -62,6 +63,7 @@ fn main() {
         let rest: Vec<&str> = words.collect();
         let res = std::panic::catch_unwind(|| match kind {
             "xread" => xread::handle(&rest),
+            "xrun" => xrun::handle(&rest),
             _ => "badcase".to_string(),
         });
         let res = res.unwrap_or_else(|_| "panic".to_string());
